@@ -40,6 +40,9 @@ pub enum Op {
     /// set the value that is already current (the previous set's value, or the initial one): still
     /// a set - a subscriber that has not seen the value yet must get it
     SetSame,
+    /// subscriber i drops its stream (unsubscribes); the others, and later subscribers, must not
+    /// notice
+    DropSub(u8),
 }
 
 #[derive(Debug, Clone, Copy, PartialEq, Eq, Hash, Serialize, Deserialize)]
@@ -200,7 +203,8 @@ fn run_ops<N: Notified>(ops: &[Op], rt: Runtime, drain_first: bool, stats: &mut 
     let name = format!("{rt:?}").to_lowercase();
     let fail = |sig: &str, m: String| Err(Fail::new(&format!("{sig}"), format!("[{name}] {m}")));
     let mut states: Vec<Option<N::State>> = vec![Some(N::new(0))];
-    let mut subs: Vec<(N::Stream, SubModel)> = Vec::new();
+    // a subscriber that has dropped its stream keeps its slot (None), so indices stay stable
+    let mut subs: Vec<(Option<N::Stream>, SubModel)> = Vec::new();
     let mut next = 0u64;
     let mut n_sets = 0usize;
     let mut any_set = false;
@@ -284,22 +288,30 @@ fn run_ops<N: Notified>(ops: &[Op], rt: Runtime, drain_first: bool, stats: &mut 
                 }
             }
             Op::Sub => {
-                if subs.len() >= 3 {
+                if subs.len() >= 4 || subs.iter().filter(|s| s.0.is_some()).count() >= 3 {
                     continue;
                 }
                 let Some(st) = states.iter().flatten().next() else { continue };
-                subs.push((N::stream(st), SubModel { set_since: vec![], seen: vec![], sets_since_poll: 0, match_pos: 0, sets_since_pending: 0, items_since_pending: 0, lagged: false, late: any_set, waker: Default::default(), parked_at: None }));
+                subs.push((Some(N::stream(st)), SubModel { set_since: vec![], seen: vec![], sets_since_poll: 0, match_pos: 0, sets_since_pending: 0, items_since_pending: 0, lagged: false, late: any_set, waker: Default::default(), parked_at: None }));
             }
             Op::Poll(i) => {
                 let i = i as usize;
-                if i >= subs.len() {
+                if i >= subs.len() || subs[i].0.is_none() {
                     continue;
                 }
                 let alive = states.iter().any(|s| s.is_some());
                 let w = subs[i].1.waker.clone();
-                let got = poll_with(&mut subs[i].0, &w);
+                let got = poll_with(subs[i].0.as_mut().unwrap(), &w);
                 subs[i].1.parked_at = if got == Got::Pending { Some(w.count()) } else { None };
                 judge(i, &got, &mut subs[i].1, alive, &name)?;
+            }
+            Op::DropSub(i) => {
+                let i = i as usize;
+                if i < subs.len() && subs[i].0.is_some() {
+                    subs[i].0 = None;
+                    subs[i].1.parked_at = None;
+                    stats.class("a-subscriber-dropped-its-stream");
+                }
             }
             Op::Clone => {
                 if states.len() >= 3 {
@@ -324,6 +336,7 @@ fn run_ops<N: Notified>(ops: &[Op], rt: Runtime, drain_first: bool, stats: &mut 
     // second variant of every case this step is left out: the states go away while subscribers
     // still have a value waiting, which they must get before they see the end.
     for (i, (s, m)) in subs.iter_mut().enumerate() {
+        let Some(s) = s.as_mut() else { continue };
         if !drain_first {
             if m.seen.last() != m.set_since.last() {
                 stats.class("state-dropped-with-a-value-undelivered");
@@ -346,6 +359,7 @@ fn run_ops<N: Notified>(ops: &[Op], rt: Runtime, drain_first: bool, stats: &mut 
         m.woken_if_parked(i, "every state was dropped", &name)?;
     }
     for (i, (s, m)) in subs.iter_mut().enumerate() {
+        let Some(s) = s.as_mut() else { continue };
         let mut ended = false;
         for _ in 0..10 {
             let w = m.waker.clone();
@@ -493,7 +507,8 @@ pub fn op_strategy() -> impl Strategy<Value = Op> {
         4 => Just(Op::Set),
         1 => Just(Op::SetClone),
         2 => Just(Op::Sub),
-        5 => (0u8..3).prop_map(Op::Poll),
+        5 => (0u8..4).prop_map(Op::Poll),
+        1 => (0u8..3).prop_map(Op::DropSub),
         1 => Just(Op::Clone),
         1 => Just(Op::DropOriginal),
         2 => Just(Op::SetSame),
@@ -501,7 +516,7 @@ pub fn op_strategy() -> impl Strategy<Value = Op> {
 }
 
 fn enumerated() -> Vec<Vec<Op>> {
-    let alphabet = [Op::Set, Op::SetSame, Op::Sub, Op::Poll(0), Op::Poll(1)];
+    let alphabet = [Op::Set, Op::SetSame, Op::Sub, Op::Poll(0), Op::Poll(1), Op::DropSub(0)];
     let mut out = vec![vec![]];
     let mut frontier = vec![vec![]];
     for _ in 0..7 {
@@ -514,6 +529,8 @@ fn enumerated() -> Vec<Vec<Op>> {
                     Op::Set | Op::SetSame if sets >= 4 => continue,
                     Op::Sub if subs >= 2 => continue,
                     Op::Poll(i) if (i as usize) >= subs => continue,
+                    // at most one unsubscription, of an existing subscriber, and something after it
+                    Op::DropSub(_) if subs == 0 || s.contains(&Op::DropSub(0)) || s.len() >= 6 => continue,
                     _ => {}
                 }
                 let mut t: Vec<Op> = s.clone();
